@@ -26,6 +26,7 @@ type Env struct {
 	// ghostScope: when evaluating a callee's contract at a call site, the
 	// callee's monitor flags (signalled/waited) are fresh unknowns of that call
 	ghostScope map[string]*Term
+	relyOld    *State // in rely conditions old() means the state before the interference step
 }
 
 func (e *Env) with(vars map[string]Val) *Env {
@@ -420,6 +421,14 @@ func (x *Exec) evalAddr(env *Env, e *SExpr) *Addr {
 		if _, ok := env.vars[e.Name]; ok {
 			return nil
 		}
+		if env.fr != nil {
+			// captured variable of a closure: the address of its cell
+			for i, fv := range env.fr.fn.FreeVars {
+				if fv.Name() == e.Name && i < len(env.fr.freeVars) {
+					return x.ptrAddr(env.fr.freeVars[i])
+				}
+			}
+		}
 		p := x.E.L.Pkgs[env.pkgPath]
 		if p == nil {
 			return nil
@@ -661,6 +670,12 @@ func (x *Exec) evalCall(env *Env, e *SExpr) Val {
 	case "old":
 		n := *env
 		n.st = env.old
+		if env.relyOld != nil {
+			// names keep their current meaning, only the heap is the earlier one
+			n.st = env.relyOld
+			n.relyOld = nil
+			return x.eval(&n, e.Args[0])
+		}
 		n.fr = nil
 		if env.fr != nil {
 			// inside a body: old(x) of a parameter is its entry value
